@@ -95,6 +95,42 @@ fn main() {
                 println!("{} :: {}", x.class, x.detail);
             }
         }
+        "determinism" => {
+            // run the first N units of an engine three times (16 workers, 3 workers, 16 workers)
+            // and compare the per-unit digests of everything observed
+            let ename = args.get(2).cloned().unwrap_or_default();
+            let ctx = make_ctx(&args);
+            let n: u64 = arg_val(&args, "--units").and_then(|s| s.parse().ok()).unwrap_or(100);
+            let eng: std::sync::Arc<dyn engine::Engine> = match engine::engine_by_name(&ename) {
+                Some(e) => std::sync::Arc::from(e),
+                None => {
+                    println!("HARNESS-ERROR unknown engine");
+                    std::process::exit(2);
+                }
+            };
+            let mut runs = vec![];
+            for w in [16usize, 3, 16] {
+                match driver::digests(eng.clone(), &ctx, n, w) {
+                    Ok(m) => runs.push(m),
+                    Err(e) => {
+                        println!("HARNESS-ERROR {}", e);
+                        std::process::exit(2);
+                    }
+                }
+            }
+            let mut diff = 0;
+            for u in 0..n {
+                let a = runs[0].get(&u);
+                if runs[1].get(&u) != a || runs[2].get(&u) != a {
+                    diff += 1;
+                    if diff <= 10 {
+                        println!("NONDETERMINISTIC unit {}: {:?} {:?} {:?}", u, a, runs[1].get(&u), runs[2].get(&u));
+                    }
+                }
+            }
+            println!("determinism[{}]: {} units x 3 executions (16/3/16 workers), {} units differ", ename, n, diff);
+            std::process::exit(if diff == 0 { 0 } else { 2 });
+        }
         "selftest" => {
             let f = seams::selftest();
             for x in &f {
